@@ -78,7 +78,10 @@ func (p *upstreamclusterPlugin) Admit(ctx context.Context, a admission.Attribute
 }
 
 func (p *upstreamclusterPlugin) Validate(ctx context.Context, a admission.Attributes, o admission.ObjectInterfaces) error {
-	if shouldIgnore(a) {
+	// a write to the status subresource keeps the stored spec and labels but takes the
+	// annotations of the request, and feature gates are configured in an annotation:
+	// what such a write is about to store must be validated like any other update
+	if shouldIgnore(a) && !isStatusUpdate(a) {
 		return nil
 	}
 	cluster := a.GetObject().(*proxyv1alpha1.UpstreamCluster)
@@ -137,6 +140,15 @@ func (p *upstreamclusterPlugin) SetGatewayResourceInformerFactory(factory gatewa
 }
 
 func (p *upstreamclusterPlugin) SetGatewayResourceClientSet(g gatewayclientset.Interface) {}
+
+// isStatusUpdate tells a write of an UpstreamCluster through its status subresource
+func isStatusUpdate(a admission.Attributes) bool {
+	if a.GetResource().GroupResource() != proxyv1alpha1.Resource("upstreamclusters") || a.GetSubresource() != "status" {
+		return false
+	}
+	_, ok := a.GetObject().(*proxyv1alpha1.UpstreamCluster)
+	return ok
+}
 
 func shouldIgnore(a admission.Attributes) bool {
 	if a.GetResource().GroupResource() != proxyv1alpha1.Resource("upstreamclusters") {
